@@ -42,6 +42,7 @@ type baselineFns struct {
 	fns    map[string]bool
 	sigs   map[string]string   // reviewed function -> package|receiver|exported|signature
 	prints map[string][]string // reviewed function -> what its body mentions (callees, string literals)
+	inl    map[string]bool     // reviewed function was a single `return <expr>` (read as that expression)
 }
 
 func (w *World) loadBaseline(verifDir string) error {
@@ -53,6 +54,7 @@ func (w *World) loadBaseline(verifDir string) error {
 		Functions map[string]struct {
 			Sig string   `json:"sig"`
 			Fp  []string `json:"fp"`
+			Inl bool     `json:"inl,omitempty"`
 		} `json:"functions"`
 	}
 	if err := json.Unmarshal(b, &doc); err != nil {
@@ -61,7 +63,11 @@ func (w *World) loadBaseline(verifDir string) error {
 	w.base.fns = map[string]bool{}
 	w.base.sigs = map[string]string{}
 	w.base.prints = map[string][]string{}
+	w.base.inl = map[string]bool{}
 	for f, d := range doc.Functions {
+		if d.Inl {
+			w.base.inl[f] = true
+		}
 		w.base.fns[f] = true
 		w.base.sigs[f] = d.Sig
 		w.base.prints[f] = d.Fp
@@ -76,7 +82,11 @@ func (w *World) loadBaseline(verifDir string) error {
 func (w *World) dumpFunctions() []byte {
 	ks := map[string]any{}
 	for k, fi := range w.Funcs {
-		ks[k] = map[string]any{"sig": funcSigKey(fi), "fp": bodyPrint(fi)}
+		ent := map[string]any{"sig": funcSigKey(fi), "fp": bodyPrint(fi)}
+		if singleReturn(fi) {
+			ent["inl"] = true
+		}
+		ks[k] = ent
 	}
 	b, _ := json.MarshalIndent(map[string]any{
 		"_comment":  "functions of gleece on the tree the rules were reviewed against (with package|receiver|exported|signature); a function not listed here is analysed as if inlined into its callers, unless it is a listed function under a new name (checker/inline.go)",
@@ -991,7 +1001,7 @@ func (w *World) detectRenames() {
 				if taken[n] {
 					continue
 				}
-				sim := jaccard(w.base.prints[g], bodyPrint(w.Funcs[n]))
+				sim := jaccard(libraryPrint(w.base.prints[g]), libraryPrint(bodyPrint(w.Funcs[n])))
 				if sim > bestSim {
 					best, second, bestSim = n, bestSim, sim
 				} else if sim > second {
@@ -1088,8 +1098,12 @@ func bodyPrint(fi *FuncInfo) []string {
 	ast.Inspect(fi.Decl.Body, func(n ast.Node) bool {
 		switch x := n.(type) {
 		case *ast.CallExpr:
-			if o, ok := typeutil.Callee(info, x).(*types.Func); ok && o.Pkg() != nil && !isGleecePkg(o.Pkg().Path()) {
-				set["call:"+o.FullName()] = true
+			if o, ok := typeutil.Callee(info, x).(*types.Func); ok && o.Pkg() != nil {
+				if !isGleecePkg(o.Pkg().Path()) {
+					set["call:"+o.FullName()] = true
+				} else {
+					set["gcall:"+fnName(o.FullName())] = true // by reviewed name
+				}
 			}
 		case *ast.BasicLit:
 			if x.Kind == token.STRING && len(x.Value) > 4 {
@@ -1107,6 +1121,18 @@ func bodyPrint(fi *FuncInfo) []string {
 		ks = ks[:80]
 	}
 	return ks
+}
+
+// libraryPrint: a fingerprint without the calls of gleece functions (whose names may be
+// changing in the same commit)
+func libraryPrint(fp []string) []string {
+	var out []string
+	for _, x := range fp {
+		if !strings.HasPrefix(x, "gcall:") {
+			out = append(out, x)
+		}
+	}
+	return out
 }
 
 func jaccard(a, b []string) float64 {
